@@ -184,6 +184,11 @@ func runCase(c sigCase) pbt.Result {
 		err = ad.SignWithExtendedProviders(signer.Priv, func(id string) (ic.PrivKey, error) {
 			for _, e := range a.EPs {
 				if adgen.IDString(keys[e.IDKey].ID, a.IDForm) == id {
+					if e.IDKey == a.Provider {
+						// a key store maps an identity to that identity's key; the library must not need it for
+						// the main provider's entry, which the advertisement's signer signs
+						return keys[a.Provider].Priv, nil
+					}
 					return keys[e.SignKey].Priv, nil
 				}
 			}
